@@ -94,16 +94,18 @@ CLAIMED["C03"] = dict(
           "abstract loc/alive machine with a five-clause loop invariant, and a refinement proof that the concrete slot store "
           "implements it; hence every observed protein is in exactly one non-empty group, the leading protein's peptide set "
           "contains every member's, no leader's set is contained in that of a protein outside its group, and leaders' sets are "
-          "exactly the distinct inclusion-maximal sets (count). No-grouping singletons proved. Pseudo-gene grouping: the ALGORITHM is tied by "
-          "correspondence; the CLAIM 'groups = connected components of the shares-a-peptide relation' is decided on the implementation's own "
+          "exactly the distinct inclusion-maximal sets (count). No-grouping singletons proved. Pseudo-gene grouping: the ALGORITHM (merge "
+          "every connected component of the leading proteins into its smallest member, by stale slot index) is proved for every map: its "
+          "groups are a duplicate-free partition of the observed proteins without empty group, and two proteins share a group exactly when "
+          "a chain of proteins with a common peptide links them (closure closedness by a fuel/size argument, components as equivalence "
+          "classes, a gathering invariant of the merge loop). The same claim is ALSO decided on the implementation's own "
           "groups by a boolean checker (partition, every group connected by a fuel-bounded closure, no peptide shared between groups) "
           "that is proved sound (checker true => two proteins share a group iff a chain of peptide-sharing proteins links them) and that "
           "the kernel evaluates in every pseudo-gene correspondence case. Correspondence: exact "
           "list-of-lists agreement on incidence structures (all 4x4 structures in the thorough tier) and random larger ones."),
     note=COMMON_NOTE + "Theorems assume distinct peptide keys (a Python dict). networkx.connected_components re-implemented "
-         "as a fuel-bounded closure and tied by correspondence; for pseudo-gene grouping the theorem is about the CHECKER applied to each "
-         "implementation output (certificate per input), not about the algorithm for all inputs (partial). Axioms: none.",
-    technique="Coq loop-invariant + refinement proof (abstract loc/alive machine <- concrete slot store) + proved-sound component checker evaluated on the implementation's output + differential correspondence",
+         "as a fuel-bounded closure (proved closed and duplicate-free) and tied by correspondence. Axioms: none.",
+    technique="Coq loop-invariant + refinement proof (abstract loc/alive machine <- concrete slot store) + connected-components proof of the pseudo-gene algorithm + proved-sound component checker evaluated on the implementation's output + differential correspondence",
     design="5/C03")
 
 CLAIMED["C05"] = dict(
